@@ -306,5 +306,29 @@ def replay(ctx, v):
     return bool(failed), det
 
 
+def native(ctx):
+    n = 40 if ctx.tier == 'quick' else 400
+    done = False
+    for i in range(n):
+        ids = ctx.rng.sample([0, 1, 7, 35, 1200, 65535], 3)
+        v = [(ctx.rng.choice(TYPES), ctx.rng.random() < 0.5, ids[j] if ctx.rng.random() < 0.5 else None) for j in range(3)]
+        rep, det = replay(ctx, v)
+        if rep and not done:
+            done = True
+            ctx.report('C12/native', f'overrides {v}: {det.get("failed") or det.get("real")}', det, True, det)
+        elif not rep:
+            ctx.replayed_ok += 1
+    # vertex entry without struct parameters / with struct parameters, overrides present
+    src = ('override k: f32;\n@id(3) override j: u32 = 1u;\nstruct V { @location(0) p: vec4<f32> }\n'
+           '@vertex fn v1(@builtin(vertex_index) i: u32) -> @builtin(position) vec4<f32> { return vec4<f32>(k); }\n'
+           '@vertex fn v2(a: V) -> @builtin(position) vec4<f32> { return a.p; }\n@fragment fn f1() {}\n')
+    kind, toks, _ = ctx.gen_tokens(src, {})
+    if kind == 'ok':
+        en = decode_entry_items(toks)
+        okv = all(e['fields'].get('constants') == 'overrides . constants ()' for e in list(en['vertex'].values()) + list(en['fragment'].values()))
+        okv = okv and all(p_[-1] == ('overrides', '& OverrideConstants') for p_ in [e['params'] for e in en['vertex'].values()])
+        if not okv and not done:
+            ctx.report('C12/native-entries', 'an entry helper does not take / pass the override map', {'wgsl': src}, True)
+
 if __name__ == '__main__':
-    sys.exit(main('C12', run))
+    sys.exit(main('C12', run, native))
